@@ -25,7 +25,11 @@ package main
 //                  pausing and closes), file (a regular file opened for reading, as the shell's
 //                  `< data.json` or a here-document), empty (an empty regular file), null (/dev/null;
 //                  the bytes are ignored), socket (one end of a socket pair; the bytes are written to
-//                  the other end, which is then closed), closed (descriptor 0 is closed: `<&-`).
+//                  the other end, which is then closed), closed (descriptor 0 is closed: `<&-`),
+//                  zero / full / random (the character devices /dev/zero, /dev/full, /dev/urandom opened
+//                  for reading: endless NUL bytes / random bytes; the stdin bytes of the request are
+//                  ignored), tty (the slave side of a fresh pseudo-terminal that nobody types into: a
+//                  TERMINAL; the answer is class=nodevice where the system has no /dev/ptmx).
 //                  The model knows only bytes on stdin: give such a case a ModelReq without s=
 //            z     huge JSON output (deeply nested documents indent to megabytes): where stdout / the
 //                  -o file holds exactly one JSON document, `out` / `ofile` carry the hex of its
@@ -37,6 +41,16 @@ package main
 //                  arguments joined by "." ("e" = empty argument); stdin is /dev/null, stdout and
 //                  stderr are dropped, the exit status is ignored. The model does not know p=:
 //                  give such a case a ModelReq without it (the answer must not depend on it)
+//            e=<hex spec> the process ENVIRONMENT of the run under test (C10; see cliEnvApply):
+//                  `;`-separated directives NAME=value (set a variable), -NAME (unset it),
+//                  umask=<octal>, root=shm|deep (where the working directory itself is made: on
+//                  /dev/shm -- another file system than the default temp dir --, or several levels
+//                  down a path with blanks and non-ASCII names). In a value @DIR@ is the working
+//                  directory, @MISSING@ a path that does not exist, @FILE@ a regular file, @RODIR@
+//                  a directory without write permission, @SHM@ / @TMP@ a fresh empty directory on
+//                  /dev/shm / in the default temp dir (removed afterwards). The answer carries
+//                  envfs=<0|1>: whether @SHM@ / root=shm really is another file system than the
+//                  default temp dir. The model does not know e=: give a ModelReq without it
 //
 // Answer: R exit=<n> out=<hex stdout> errlen=<n> stderr=<hex> ofile=<hex | -> ofexists=<0|1> class=cli<n>
 // (class=nobinary when JQAWK_BIN is not set, class=timeout when the limit is hit); with a staged
@@ -59,6 +73,7 @@ import (
 	"sync"
 	"syscall"
 	"time"
+	"unsafe"
 )
 
 // CliFile is one file (or directory) placed in the binary's working directory.
@@ -235,11 +250,11 @@ func implCli(fields []string) string {
 			argv = append(argv, string(b))
 		}
 	}
-	dir, err := os.MkdirTemp("", "jqawk-cli-")
+	top, dir, err := cliEnvRoot(fields[4])
 	if err != nil {
 		return "R class=crash msg=no_temp_dir"
 	}
-	defer os.RemoveAll(dir)
+	defer os.RemoveAll(top)
 	// staged input: what to write first, what after the wait, and where
 	var stageFirst, stageRest []byte
 	var stageW io.WriteCloser
@@ -305,6 +320,7 @@ func implCli(fields []string) string {
 	var prelude [][]string
 	stdinKind := "pipe"
 	summarise := false
+	envSpec := ""
 	if fields[4] != "-" {
 		for _, fl := range strings.Split(fields[4], ",") {
 			num := func() (int, bool) {
@@ -320,6 +336,12 @@ func implCli(fields []string) string {
 				ofile = string(b)
 			case fl == "z":
 				summarise = true
+			case strings.HasPrefix(fl, "e="):
+				b, err := unhx(fl[2:])
+				if err != nil {
+					return "R class=badrequest"
+				}
+				envSpec = string(b)
 			case strings.HasPrefix(fl, "s="):
 				stdinKind = fl[2:]
 			case strings.HasPrefix(fl, "p="):
@@ -359,6 +381,9 @@ func implCli(fields []string) string {
 			}
 		}
 	}
+	if k, err := strconv.Atoi(os.Getenv("VERIF_SLOW")); err == nil && k > 1 {
+		limit *= time.Duration(k) // a retry of a timed-out request on a busy machine (core.go)
+	}
 	ctx, cancel := context.WithTimeout(context.Background(), limit)
 	defer cancel()
 	for _, av := range prelude {
@@ -372,6 +397,14 @@ func implCli(fields []string) string {
 		cmd = exec.CommandContext(ctx, "/bin/sh", append([]string{"-c", `exec "$0" "$@" <&-`, bin}, argv...)...)
 	}
 	cmd.Dir = dir
+	if envSpec != "" {
+		cleanup, ex, ok := cliEnvApply(cmd, envSpec, dir, bin, argv, stdinKind)
+		defer cleanup()
+		if !ok {
+			return "R class=badrequest"
+		}
+		extra += ex
+	}
 	switch {
 	case stdinKind != "pipe":
 		if staged || strings.Contains(fields[2], ":") {
@@ -426,7 +459,19 @@ func implCli(fields []string) string {
 		case "closed":
 			// nothing: the shell closes it (cmd.Stdin == nil gives the shell /dev/null first)
 		default:
-			return "R class=badrequest"
+			// a device node: zero, full, random, tty (see cliStdinDevice)
+			df, keep, ok := cliStdinDevice(stdinKind)
+			if !ok {
+				return "R class=badrequest"
+			}
+			if df == nil {
+				return "R class=nodevice"
+			}
+			defer df.Close()
+			if keep != nil {
+				defer keep.Close()
+			}
+			cmd.Stdin = df
 		}
 	case strings.Contains(fields[2], ":"):
 		if staged {
@@ -530,4 +575,200 @@ func implCli(fields []string) string {
 		}
 	}
 	return fmt.Sprintf("R exit=%d %s err=%d errlen=%d stderr=%s %s ofexists=%d%s class=cli%d", exit, outF, errFlag, se.Len(), hx(se.Bytes()), of, ofexists, extra, exit)
+}
+
+// cliStdinDevice opens the device behind the stdin kinds zero, full, random and tty. ok == false:
+// no such kind; a nil file: the device cannot be opened on this system. keep is a second
+// descriptor that has to stay open as long as the first is in use (the master side of the
+// pseudo-terminal).
+func cliStdinDevice(kind string) (f *os.File, keep *os.File, ok bool) {
+	switch kind {
+	case "zero", "full", "random":
+		path := map[string]string{"zero": "/dev/zero", "full": "/dev/full", "random": "/dev/urandom"}[kind]
+		f, err := os.Open(path)
+		if err != nil {
+			return nil, nil, true
+		}
+		return f, nil, true
+	case "tty":
+		master, err := os.OpenFile("/dev/ptmx", os.O_RDWR|syscall.O_NOCTTY, 0)
+		if err != nil {
+			return nil, nil, true
+		}
+		var n uint32
+		var unlock int32
+		if _, _, e := syscall.Syscall(syscall.SYS_IOCTL, master.Fd(), syscall.TIOCSPTLCK, uintptr(unsafe.Pointer(&unlock))); e != 0 {
+			master.Close()
+			return nil, nil, true
+		}
+		if _, _, e := syscall.Syscall(syscall.SYS_IOCTL, master.Fd(), syscall.TIOCGPTN, uintptr(unsafe.Pointer(&n))); e != 0 {
+			master.Close()
+			return nil, nil, true
+		}
+		slave, err := os.OpenFile(fmt.Sprintf("/dev/pts/%d", n), os.O_RDWR|syscall.O_NOCTTY, 0)
+		if err != nil {
+			master.Close()
+			return nil, nil, true
+		}
+		return slave, master, true
+	}
+	return nil, nil, false
+}
+
+// ---- e=: the process environment of the run under test (C10) ------------------------------
+
+// CliEnvReq adds the environment spec (see e= above) to a "cli" request.
+func CliEnvReq(req string, spec string) string {
+	if spec == "" {
+		return req
+	}
+	if strings.HasSuffix(req, " -") {
+		return strings.TrimSuffix(req, "-") + "e=" + hxs(spec)
+	}
+	return req + ",e=" + hxs(spec)
+}
+
+// cliEnvSpec extracts the e= spec from the flags field ("" if there is none).
+func cliEnvSpec(flags string) string {
+	for _, fl := range strings.Split(flags, ",") {
+		if strings.HasPrefix(fl, "e=") {
+			if b, err := unhx(fl[2:]); err == nil {
+				return string(b)
+			}
+		}
+	}
+	return ""
+}
+
+func cliShmUsable() bool {
+	st, err := os.Stat("/dev/shm")
+	return err == nil && st.IsDir()
+}
+
+// cliOtherFS: is path on another file system than the default temp dir?
+func cliOtherFS(path string) bool {
+	var a, b syscall.Stat_t
+	if syscall.Stat(path, &a) != nil || syscall.Stat(os.TempDir(), &b) != nil {
+		return false
+	}
+	return a.Dev != b.Dev
+}
+
+// cliEnvRoot makes the working directory: top is what has to be removed afterwards.
+func cliEnvRoot(flags string) (top, dir string, err error) {
+	parent, deep := "", false
+	for _, d := range strings.Split(cliEnvSpec(flags), ";") {
+		switch d {
+		case "root=shm":
+			if cliShmUsable() {
+				parent = "/dev/shm"
+			}
+		case "root=deep":
+			deep = true
+		}
+	}
+	top, err = os.MkdirTemp(parent, "jqawk-cli-")
+	if err != nil {
+		return "", "", err
+	}
+	dir = top
+	if deep {
+		dir = filepath.Join(top, "a b", "d\u00e9j\u00e0 vu", "x'y", "wd")
+		if err = os.MkdirAll(dir, 0o755); err != nil {
+			os.RemoveAll(top)
+			return "", "", err
+		}
+	}
+	return top, dir, nil
+}
+
+// cliEnvApply gives cmd the environment described by spec.
+func cliEnvApply(cmd *exec.Cmd, spec, dir, bin string, argv []string, stdinKind string) (cleanup func(), extra string, ok bool) {
+	var remove []string
+	cleanup = func() {
+		for _, p := range remove {
+			os.Chmod(p, 0o755)
+			os.RemoveAll(p)
+		}
+	}
+	otherFS := false
+	fresh := func(parent string) string {
+		p, err := os.MkdirTemp(parent, "jqawk-env-")
+		if err != nil {
+			return filepath.Join(dir, "..", "jqawk-env-unavailable")
+		}
+		remove = append(remove, p)
+		return p
+	}
+	subst := func(v string) string {
+		if strings.Contains(v, "@DIR@") {
+			v = strings.ReplaceAll(v, "@DIR@", dir)
+		}
+		if strings.Contains(v, "@MISSING@") {
+			v = strings.ReplaceAll(v, "@MISSING@", filepath.Join(dir, ".no", "such", "dir"))
+		}
+		if strings.Contains(v, "@FILE@") {
+			p := fresh("")
+			f := filepath.Join(p, "plain-file")
+			os.WriteFile(f, []byte("x"), 0o644)
+			v = strings.ReplaceAll(v, "@FILE@", f)
+		}
+		if strings.Contains(v, "@RODIR@") {
+			p := fresh("")
+			os.Chmod(p, 0o555)
+			v = strings.ReplaceAll(v, "@RODIR@", p)
+		}
+		if strings.Contains(v, "@TMP@") {
+			v = strings.ReplaceAll(v, "@TMP@", fresh(""))
+		}
+		if strings.Contains(v, "@SHM@") {
+			parent := ""
+			if cliShmUsable() {
+				parent = "/dev/shm"
+			}
+			p := fresh(parent)
+			otherFS = otherFS || cliOtherFS(p)
+			v = strings.ReplaceAll(v, "@SHM@", p)
+		}
+		return v
+	}
+	env := os.Environ()
+	unset := func(name string) {
+		kept := env[:0:0]
+		for _, kv := range env {
+			if !strings.HasPrefix(kv, name+"=") {
+				kept = append(kept, kv)
+			}
+		}
+		env = kept
+	}
+	for _, d := range strings.Split(spec, ";") {
+		switch {
+		case d == "":
+		case d == "root=shm":
+			otherFS = otherFS || cliOtherFS(dir)
+		case d == "root=deep":
+		case strings.HasPrefix(d, "umask="):
+			if _, err := strconv.ParseUint(d[6:], 8, 12); err != nil || stdinKind == "closed" {
+				return cleanup, "", false
+			}
+			// the shell sets the mask and replaces itself by the binary, arguments untouched
+			cmd.Path = "/bin/sh"
+			cmd.Args = append([]string{"/bin/sh", "-c", "umask " + d[6:] + `; exec "$0" "$@"`, bin}, argv...)
+		case strings.HasPrefix(d, "-"):
+			unset(d[1:])
+		case strings.Contains(d, "="):
+			i := strings.IndexByte(d, '=')
+			unset(d[:i])
+			env = append(env, d[:i]+"="+subst(d[i+1:]))
+		default:
+			return cleanup, "", false
+		}
+	}
+	cmd.Env = env
+	fs := 0
+	if otherFS {
+		fs = 1
+	}
+	return cleanup, fmt.Sprintf(" envfs=%d", fs), true
 }
